@@ -582,7 +582,7 @@ func miscUnit() harness.Unit {
 var Prop = &harness.Prop{
 	ID:          "C03",
 	Level:       "model_checking",
-	Rule:        "group walk: explicit-state breadth-first search whose states are curve points identified by their discrete log (known to the model); transitions call the real Add/Double/ScalarMult on the coordinates the implementation itself returned (+G, -G, Double, Add(self,self), Add(self,-self), Add(self,earlier state), Add(inf,self), Add(self,inf), ScalarMult(self,c) for 10 constants incl. 0, n-1, n, n+1) and every result is compared with the affine reference; deduplication on the discrete log per (initial state, first operation) subtree. Plus exhaustive scalar alphabet (0..20, n-20..n+20 and 2n+-, t*n+d, 2^j, 2^j-1, windows at every offset, every comb-table entry alone, leading zero bytes, 0..40-byte strings) x 5 base points for ScalarMult and ScalarBaseMult; field-limb alphabet through the public API (x whose Montgomery limbs are drawn from the boundary set in every position: IsOnCurve vs the equation, Double and Add vs b-independent affine formulas); parameters; membership of neighbours; GenerateKey on scripted streams. states = distinct discrete logs reached (summed over subtrees); transitions = real curve operations in the walk; traces = states expanded.",
+	Rule:        "group walk: explicit-state breadth-first search whose states are curve points identified by their discrete log (known to the model); transitions call the real Add/Double/ScalarMult on the coordinates the implementation itself returned (+G, -G, Double, Add(self,self), Add(self,-self), Add(self,earlier state), Add(inf,self), Add(self,inf), ScalarMult(self,c) for 10 constants incl. 0, n-1, n, n+1) and every result is compared with the affine reference; deduplication on the discrete log per (initial state, first operation) subtree. Plus exhaustive scalar alphabet (0..20, n-20..n+20 and 2n+-, t*n+d, 2^j, 2^j-1, windows at every offset, every comb-table entry alone, leading zero bytes, 0..40-byte strings) x 5 base points for ScalarMult and ScalarBaseMult; field-limb alphabet through the public API (x whose Montgomery limbs are drawn from the boundary set in every position: IsOnCurve vs the equation, Double and Add vs b-independent affine formulas); parameters; membership of neighbours; GenerateKey on scripted streams. states = distinct discrete logs reached (summed over subtrees); transitions = real curve operations in the walk; traces = states expanded. Fresh-process unit: every sequence of one or two curve operations (base/scalar multiplication with 1, 2, n-1, n, 2^255, Add, Double, IsOnCurve, Params) as the first library activity of a new process.",
 	Assumptions: []string{"refsm2 affine arithmetic over math/big is correct (identities checked at init, GM/T 0003.5 examples in setup)", "values off the alphabets are not covered (see DESIGN §4)"},
 	Bounds: func(tier string) string {
 		if tier == "thorough" {
